@@ -163,6 +163,9 @@ pub struct Trx<SP: StorageProvider> {
     pub peer: usize,
     /// A non-policy error happened: no property defines further use; must be abandoned.
     pub dead: bool,
+    /// A command was refused at origin (policy rejection or unstorable after its rule ran) while
+    /// this transaction was open: committing it is the situation C06 speaks about.
+    pub had_rejection: bool,
 }
 
 pub struct Sess<SP: StorageProvider> {
@@ -255,7 +258,7 @@ impl<SP: StorageProvider> Rep<SP> {
 
     pub fn open_trx(&mut self, gid: GraphId, peer: usize) -> usize {
         let trx = self.client.transaction(gid);
-        let t = Trx { trx, captured: None, acc: BTreeSet::new(), received: Vec::new(), peer, dead: false };
+        let t = Trx { trx, captured: None, acc: BTreeSet::new(), received: Vec::new(), peer, dead: false, had_rejection: false };
         if let Some(i) = self.trxs.iter().position(Option::is_none) {
             self.trxs[i] = Some(t);
             i
